@@ -67,6 +67,9 @@ func genMsgs(t *rapid.T) []Msg {
 		case k == 0 && !inCycle:
 			s = append(s, Msg{Kind: "start"})
 			inCycle = true
+		case k == 0 && inCycle && rapid.IntRange(0, 2).Draw(t, "restart-cycle") == 1:
+			// the cycle is abandoned (the target restarted its read): a new one starts without an end in between
+			s = append(s, Msg{Kind: "start"})
 		case k == 1 && inCycle:
 			s = append(s, Msg{Kind: "end"})
 			inCycle = false
@@ -94,6 +97,11 @@ func genMsgs(t *rapid.T) []Msg {
 			s = append(s, m)
 		default:
 			m := Msg{Kind: "notif"}
+			if rapid.IntRange(0, 9).Draw(t, "bare-entry") == 4 {
+				// a JSON blob in which a list entry consists of nothing but its key
+				s = append(s, Msg{Kind: "notif", Updates: []UpdSel{{Leaf: vlib.LeafSel{T: 8, K: []int{rapid.IntRange(0, 2).Draw(t, "bare-k")}}, Form: "json-bare-entry"}}})
+				continue
+			}
 			nu := rapid.IntRange(0, 3).Draw(t, "nu")
 			for j := 0; j < nu; j++ {
 				sel := vlib.GenLeafSels(t, uni, 1, 1, "u")[0]
@@ -118,7 +126,7 @@ func genMsgs(t *rapid.T) []Msg {
 
 var prop = vlib.Prop[*Case]{
 	ID: "C13",
-	Rule: "case = notification script over plain + state (on-change streams and well-formed start/…/end cycles; updates as typed values, string values, JSON blobs at containers, leaf-list elements sent as keys; deletes of leaves, list entries and containers; names eth1 / eth10 / eth1/1, descr / descr-long, a / a_b) x write workers in {1,2,16} x sync validation on/off x a drawn completion order of the gated cache writes; the real Datastore.Sync loop consumes the script from the harness target; " +
+	Rule: "case = notification script over plain + state (on-change streams and well-formed start/…/end cycles; updates as typed values, string values, JSON blobs at containers (also a list entry that consists of its key only), leaf-list elements sent as keys; a cycle may be abandoned and restarted without an end; deletes of leaves, list entries and containers; names eth1 / eth10 / eth1/1, descr / descr-long, a / a_b) x write workers in {1,2,16} x sync validation on/off x a drawn completion order of the gated cache writes; the real Datastore.Sync loop consumes the script from the harness target; " +
 		"oracle = after the script is drained and all writers returned (hook H4 + prune counters) CONFIG and STATE equal the sequential sync model: per path the latest notification wins, deletes are structural, paths absent from a completed cycle are gone, state leaves live in STATE when validation is on; " +
 		"non-trivial = the script deletes a name that is a textual prefix of another stored name, or two in-flight notifications touch the same path, or a cycle omits a stored path; distinct = distinct case JSON",
 	Gen: func(t *rapid.T) *Case {
@@ -142,6 +150,8 @@ func harnessErr(err error) {
 type denot struct {
 	upd map[string]string
 	del []vlib.IPath
+	// key leaves of entries the device reported as bare entries: they must be stored
+	strict []string
 }
 
 func resolveDel(d DelSel) vlib.IPath {
@@ -172,6 +182,20 @@ func buildNotification(m Msg) (*sdcpb.Notification, denot) {
 			form = "typed"
 		}
 		switch form {
+		case "json-bare-entry":
+			// {"l1":[{"name":"<key>"}]} at /plain: the entry exists with its key leaf only
+			entry := p[:len(p)-1]
+			kn := entry[len(entry)-1]
+			var kname, kval string
+			for a, b := range kn.Keys {
+				kname, kval = a, b
+			}
+			b, _ := json.Marshal(map[string]any{kn.Name: []any{map[string]any{kname: kval}}})
+			n.Update = append(n.Update, &sdcpb.Update{Path: entry[:len(entry)-1].Sdcpb(), Value: &sdcpb.TypedValue{Value: &sdcpb.TypedValue_JsonVal{JsonVal: b}}})
+			kp := append(entry.Clone(), vlib.PE{Name: kname})
+			dn.upd[kp.Canon()] = kval
+			dn.strict = append(dn.strict, kp.Canon())
+			continue
 		case "typed":
 			n.Update = append(n.Update, &sdcpb.Update{Path: p.Sdcpb(), Value: vlib.TVFromDenotation(node, v)})
 		case "string":
@@ -218,6 +242,7 @@ type syncModel struct {
 	validate bool
 	inCycle  bool
 	touched  map[string]bool // written since the cycle started ("c:" / "s:" prefix)
+	strict   map[string]bool // key leaves reported as bare list entries
 }
 
 func (m *syncModel) storeOf(p vlib.IPath) vlib.Conf {
@@ -230,6 +255,12 @@ func (m *syncModel) storeOf(p vlib.IPath) vlib.Conf {
 }
 
 func (m *syncModel) apply(dn denot) {
+	for _, k := range dn.strict {
+		if m.strict == nil {
+			m.strict = map[string]bool{}
+		}
+		m.strict[k] = true
+	}
 	for _, d := range dn.del {
 		// with validation on the delete goes to the store the path's schema node belongs to
 		st := m.storeOf(d)
@@ -295,7 +326,10 @@ func Exec(c *Case) (nontrivial bool, labels []string, fail *vlib.Failure) {
 	for _, m := range c.Script {
 		switch m.Kind {
 		case "start":
-			script = append(script, &target.SyncUpdate{Start: true, Force: true})
+			if model.inCycle {
+				lab["cycle-abandoned-and-restarted"] = true
+			}
+			script = append(script, &target.SyncUpdate{Start: true, Force: !model.inCycle || len(script)%2 == 0})
 			prevPaths = nil
 			model.start()
 			lab["cycle"] = true
@@ -525,10 +559,10 @@ func Exec(c *Case) (nontrivial bool, labels []string, fail *vlib.Failure) {
 		harnessErr(err)
 	}
 	where := fmt.Sprintf("workers=%d validate=%v", c.Workers, c.Validate)
-	if f := compare("CONFIG", cfgDump, model.cfg, where, overlap); f != nil {
+	if f := compare("CONFIG", cfgDump, model.cfg, where, overlap, model.strict); f != nil {
 		return nontrivial, keys(lab), f
 	}
-	if f := compare("STATE", stDump, model.st, where, overlap); f != nil {
+	if f := compare("STATE", stDump, model.st, where, overlap, model.strict); f != nil {
 		return nontrivial, keys(lab), f
 	}
 	return nontrivial, keys(lab), nil
@@ -537,7 +571,7 @@ func Exec(c *Case) (nontrivial bool, labels []string, fail *vlib.Failure) {
 // inflight counts the distinct notifications that have a parked writer
 func inflight[T any](pk []T) int { return len(pk) }
 
-func compare(store string, dump vlib.StoreDump, want vlib.Conf, where string, overlap bool) *vlib.Failure {
+func compare(store string, dump vlib.StoreDump, want vlib.Conf, where string, overlap bool, strict map[string]bool) *vlib.Failure {
 	got := vlib.Conf{}
 	for _, e := range dump {
 		if e.Raw != "" {
@@ -559,7 +593,7 @@ func compare(store string, dump vlib.StoreDump, want vlib.Conf, where string, ov
 		}
 	}
 	for k := range want {
-		if _, ok := got[k]; !ok && vlib.MustCanon(k).IsKeyLeaf() {
+		if _, ok := got[k]; !ok && vlib.MustCanon(k).IsKeyLeaf() && !strict[k] {
 			delete(want, k)
 		}
 	}
